@@ -1296,6 +1296,11 @@ def malformed_calls(rng, h):
         ('unknown-node-cofactor', 'let_b', [bogus, f'n:{some}=1']),
         ('unknown-node-rename', 'let_n', [bogus, f'{some}={some}']),
         ('cube-undeclared', 'cube', ['nosuch=1']),
+        ('compose-unknown-node', 'let_r', [u, f'{some}={bogus}']),
+        ('compose-unknown-node-2', 'let_r', [u, ','.join(f'{nm}={bogus if k == len(names) - 1 else h.pick()}'
+                                                          for k, nm in enumerate(names))]) if n >= 2 else
+        ('undeclared-var', 'var', ['nosuch']),
+        ('cube-late-undeclared', 'cube', [','.join([f'{nm}=1' for nm in names] + ['nosuch=1'])]),
         ('unknown-node-pick', 'pick_iter', [bogus]),
     ]
     used = [nm for nm in names if any(t[0] == h.b.vars[nm] for t in h.b._succ.values() if t[1] is not None)]
@@ -1328,7 +1333,12 @@ def check_C17(ctx):
                 held = [u for u, c in h.ledger().items() if c > 0]
                 tts = {u: TT(b, univ).of(u) for u in held}
                 order = dict(b.vars)
+                was_enabled = b._last_len is not None
                 label, op, args = malformed_calls(rng, h)
+                if dyn and was_enabled and label in ('cube-late-undeclared', 'compose-unknown-node-2') \
+                        and rng.random() < 0.7:
+                    # make a request fire inside the valid part of the call, before it fails
+                    h.s.op(0, 'set_last_len', 1)
                 ans = h.s.op(0, op, *args)
                 ctx.count('rejected:' + label)
                 ctx.count('error:' + ans)
@@ -1351,6 +1361,12 @@ def check_C17(ctx):
                     bad.append('internal reordering signal raised to the caller')
                 if b._reordering_context:
                     bad.append('reordering context flag left set')
+                order_changed = dict(b.vars) != order
+                if bad and order_changed and bad == ['variable order changed by a failed call'] and dyn:
+                    # a reordering served before the failure is a legitimate, invisible event
+                    bad = []
+                if was_enabled and b._last_len is None:
+                    bad.append('dynamic reordering was silently switched off by the failed call')
                 if bad:
                     ctx.violation(f'failed call ({label}) left damage', dict(
                         problems=bad[:4], lines=list(h.s.lines), tags=dict(call='failed:' + label)))
